@@ -49,3 +49,73 @@ package controller
 //@ func (*Controller).calculateNodesToAdd(c, nodesToAdd, TargetSize, MaxNodes) (r)
 //@   ensures [C04] TargetSize + nodesToAdd > MaxNodes ==> r == MaxNodes - TargetSize
 //@   ensures [C04] TargetSize + nodesToAdd <= MaxNodes ==> r == nodesToAdd
+
+// ---------------------------------------------------------------- node_group.go: validation
+
+//@ spec parseDurOK(s string) bool
+//@ spec parseDurVal(s string) int
+//@ spec durOf(s string) int = parseDurOK(s) ? parseDurVal(s) : 0
+//@ assume func time.ParseDuration(s) (d, err)
+//@   pure
+//@   ensures parseDurOK(s) ==> err == nil && d == parseDurVal(s)
+//@   ensures !parseDurOK(s) ==> err != nil
+
+// the lazily cached durations are either unset (0) or the parsed value
+//@ spec durCacheOK(n *NodeGroupOptions) bool = (n.softDeleteGracePeriodDuration == 0 || n.softDeleteGracePeriodDuration == durOf(n.SoftDeleteGracePeriod)) && (n.hardDeleteGracePeriodDuration == 0 || n.hardDeleteGracePeriodDuration == durOf(n.HardDeleteGracePeriod)) && (n.scaleUpCoolDownPeriodDuration == 0 || n.scaleUpCoolDownPeriodDuration == durOf(n.ScaleUpCoolDownPeriod)) && (n.maxNodeAgeDuration == 0 || n.maxNodeAgeDuration == durOf(n.MaxNodeAge))
+
+//@ func (*NodeGroupOptions).SoftDeleteGracePeriodDuration(n) (d)
+//@   requires n != nil && durCacheOK(n)
+//@   modifies n.softDeleteGracePeriodDuration
+//@   ensures d == durOf(n.SoftDeleteGracePeriod) && durCacheOK(n)
+//@ func (*NodeGroupOptions).HardDeleteGracePeriodDuration(n) (d)
+//@   requires n != nil && durCacheOK(n)
+//@   modifies n.hardDeleteGracePeriodDuration
+//@   ensures d == durOf(n.HardDeleteGracePeriod) && durCacheOK(n)
+//@ func (*NodeGroupOptions).ScaleUpCoolDownPeriodDuration(n) (d)
+//@   requires n != nil && durCacheOK(n)
+//@   modifies n.scaleUpCoolDownPeriodDuration
+//@   ensures d == durOf(n.ScaleUpCoolDownPeriod) && durCacheOK(n)
+//@ func (*NodeGroupOptions).MaxNodeAgeDuration(n) (d)
+//@   requires n != nil && durCacheOK(n)
+//@   modifies n.maxNodeAgeDuration
+//@   ensures d == durOf(n.MaxNodeAge) && durCacheOK(n)
+
+//@ func (*NodeGroupOptions).autoDiscoverMinMaxNodeOptions(n) (r)
+//@   requires n != nil
+//@   ensures r <==> (n.MinNodes == 0 && n.MaxNodes == 0)
+
+//@ func validAWSLifecycle(lifecycle) (r)
+//@   ensures [C16] r <==> (lifecycle == "" || lifecycle == "on-demand" || lifecycle == "spot")
+//@ func validMaxNodeAgeDuration(maxNodeAge) (r)
+//@   ensures [C16] r <==> (maxNodeAge == "" || parseDurOK(maxNodeAge))
+
+// k8s.TaintEffectTypes is initialised to exactly these three effects and never written.
+//@ spec isTaintEffect(e string) bool = e == "NoSchedule" || e == "NoExecute" || e == "PreferNoSchedule"
+//@ func validTaintEffect(taintEffect) (r)
+//@   requires forall e string :: has(k8s.TaintEffectTypes, e) <==> isTaintEffect(e)
+//@   requires forall e string :: has(k8s.TaintEffectTypes, e) ==> k8s.TaintEffectTypes[e]
+//@   ensures [C16] r <==> (taintEffect == "" || isTaintEffect(taintEffect))
+
+// the checkThat closure: appends one problem iff the condition is false
+//@ func ValidateNodeGroup$1(cond, format, output)
+//@   requires problems != nil
+//@   requires base(deref(problems)) == nil || allocated(base(deref(problems)))
+//@   modifies cell(problems), elems(deref(problems))
+//@   ensures cond ==> len(deref(problems)) == old(len(deref(problems)))
+//@   ensures !cond ==> len(deref(problems)) == old(len(deref(problems))) + 1
+//@   ensures base(deref(problems)) == old(base(deref(problems))) || fresh(base(deref(problems)))
+
+// C16 (validator half): everything the statement lists follows from an empty problem list.
+//@ func ValidateNodeGroup(nodegroup) (problems)
+//@   requires nodegroup.softDeleteGracePeriodDuration == 0 && nodegroup.hardDeleteGracePeriodDuration == 0 && nodegroup.scaleUpCoolDownPeriodDuration == 0 && nodegroup.maxNodeAgeDuration == 0
+//@   requires forall e string :: has(k8s.TaintEffectTypes, e) <==> isTaintEffect(e)
+//@   requires forall e string :: has(k8s.TaintEffectTypes, e) ==> k8s.TaintEffectTypes[e]
+//@   ensures [C16] len(problems) == 0 ==> nodegroup.Name != "" && nodegroup.LabelKey != "" && nodegroup.LabelValue != "" && nodegroup.CloudProviderGroupName != ""
+//@   ensures [C16] len(problems) == 0 ==> 0 < nodegroup.TaintLowerCapacityThresholdPercent && nodegroup.TaintLowerCapacityThresholdPercent < nodegroup.TaintUpperCapacityThresholdPercent && nodegroup.TaintUpperCapacityThresholdPercent < nodegroup.ScaleUpThresholdPercent
+//@   ensures [C16] len(problems) == 0 ==> 0 <= nodegroup.SlowNodeRemovalRate && nodegroup.SlowNodeRemovalRate <= nodegroup.FastNodeRemovalRate
+//@   ensures [C16] len(problems) == 0 ==> 0 < durOf(nodegroup.SoftDeleteGracePeriod) && durOf(nodegroup.SoftDeleteGracePeriod) < durOf(nodegroup.HardDeleteGracePeriod)
+//@   ensures [C16] len(problems) == 0 ==> durOf(nodegroup.ScaleUpCoolDownPeriod) > 0
+//@   ensures [C16] len(problems) == 0 ==> (0 <= nodegroup.MinNodes && nodegroup.MinNodes < nodegroup.MaxNodes) || (nodegroup.MinNodes == 0 && nodegroup.MaxNodes == 0)
+//@   ensures [C16] len(problems) == 0 ==> nodegroup.TaintEffect == "" || isTaintEffect(nodegroup.TaintEffect)
+//@   ensures [C16] len(problems) == 0 ==> nodegroup.AWS.Lifecycle == "" || nodegroup.AWS.Lifecycle == "on-demand" || nodegroup.AWS.Lifecycle == "spot"
+//@   ensures [C16] len(problems) == 0 ==> nodegroup.MaxNodeAge == "" || parseDurOK(nodegroup.MaxNodeAge)
